@@ -66,6 +66,13 @@ class Lab(object):
             def __init__(self, ansi=False):
                 BufferedOutputStream.__init__(self)
                 self._ansi = ansi
+                self.fail_next = False
+
+            def write(self, string):
+                if self.fail_next:
+                    self.fail_next = False
+                    raise BlockingIOError(11, "write could not complete without blocking")
+                return BufferedOutputStream.write(self, string)
 
             def supports_ansi(self):
                 return self._ansi
@@ -135,7 +142,7 @@ KINDS = ("io", "bufferedio", "consoleio", "nullio", "out", "err", "sec-out", "se
 FORMATTERS = ("ansi-forced", "ansi-stream", "plain")
 
 
-TEXTS = ["PROBE", "", "\n", "two\nlines\n"]
+TEXTS = ["PROBE", "", "\n", "two\nlines\n", "L" * 9000, "M" * 20000 + "\n"]
 
 
 def synth(method, flags="absent", text="PROBE"):
@@ -282,6 +289,13 @@ def run_histories(sh, lab, n, maxlen):
         for step in range(rng.randint(3, maxlen)):
             r = rng.random()
             name = rng.choice(sorted(objs))
+            if r < 0.04:
+                # one write to the standard stream fails (a transient error of the stream): whatever the output does with
+                # it, messages written afterwards still arrive
+                so.fail_next = True
+                steps.append(["stream", "next write fails"])
+                sh.count("history_stream_errors")
+                continue
             if r < 0.3:
                 v, q = rng.choice(VERBOSITIES), rng.random() < 0.3
                 target = objs[name]
@@ -310,6 +324,7 @@ def run_histories(sh, lab, n, maxlen):
             is_open = (not q) and v >= lowest(fl)
             steps.append([name, meth, ident, fl, "open" if is_open else "closed"])
             record = {"kind": "history", "io": kind, "formatter": fk, "objects": sorted(objs), "steps": steps}
+            failing = so.fail_next
             try:
                 if meth == "clear":
                     objs[name].clear(rng.choice([None, 1, 2]))
@@ -317,12 +332,27 @@ def run_histories(sh, lab, n, maxlen):
                     objs[name].overwrite(ident)
                 else:
                     getattr(objs[name], meth)(ident + ("" if "line" in meth else "\n"), fl)
+            except OSError as e:
+                if not failing:
+                    sh.violate("cell-raises", record, "step %d %s.%s raised %r" % (step, name, meth, e))
+                    ok = False
+                    break
+                # the stream's error reached the caller: the message is lost, nothing else
+                seen = {"o": so.fetch(), "e": se.fetch()}
+                steps[-1].append("stream error reached the caller")
+                if name.startswith("sec") or name == "secio":
+                    break  # a section's record of what is on screen is now unknown: the history ends here
+                continue
             except Exception as e:
                 sh.violate("cell-raises", record, "step %d %s.%s raised %r" % (step, name, meth, e))
                 ok = False
                 break
             sh.count("history_calls")
             now = {"o": so.fetch(), "e": se.fetch()}
+            if failing and not so.fail_next:
+                # the failing write was swallowed by the library: the message may be lost; the history continues
+                seen = now
+                continue
             if meth != "clear":
                 arrived = ident in now[which][len(seen[which]):]
                 if arrived != is_open:
@@ -403,7 +433,7 @@ def run(sh, spec):
                         # other message texts and an indentation scope: a closed gate lets nothing through,
                         # an open gate lets through exactly what the un-gated call writes
                         if fl in (None, 1, 4, 6) or q:
-                            for txt, ind in ((TEXTS[1], 0), (TEXTS[2], 0), (TEXTS[3], 0), ("PROBE", 3), (TEXTS[2], 3)):
+                            for txt, ind in ((TEXTS[1], 0), (TEXTS[2], 0), (TEXTS[3], 0), ("PROBE", 3), (TEXTS[2], 3), (TEXTS[4], 0), (TEXTS[5], 0)):
                                 if name in ("clear",) and txt != TEXTS[1]:
                                     continue
                                 c2 = dict(case, text=txt, indent=ind)
